@@ -129,18 +129,8 @@ func c02Kinds(seed int64) []unitKind {
 			}
 			return withTrail(PSIUnit(pmtPID, p, [][]byte{SecPMT(a, ref.SecHdr{CNI: true, Version: 9}), sb}, []ExpData{{Kind: "PMT", Table: a}, {Kind: "PMT", Table: b}}), t)
 		}},
-		// units beyond 1024 bytes on the PAT / a PMT PID: a section may be up to 1024 bytes, a unit may hold a pointer
-		// field, filler and several sections
-		{Name: "pat-2-big-sections", PSI: true, Early: true, Big: true, Make: func(p, t int) SUnit {
-			var a1, a2 []uint16
-			for i := 0; i < 180; i++ {
-				a1 = append(a1, uint16(i+1), uint16(0x1000+i))
-				a2 = append(a2, uint16(i+201), uint16(0x1400+i))
-			}
-			a, b := modelPAT(a1...), modelPAT(a2...)
-			return withTrail(PSIUnit(0, p, [][]byte{SecPAT(a, ref.SecHdr{CNI: true, LSN: 1}), SecPAT(b, ref.SecHdr{CNI: true, SN: 1, LSN: 1})},
-				[]ExpData{{Kind: "PAT", Table: a}, {Kind: "PAT", Table: b}}), t)
-		}},
+		// a unit beyond 1024 bytes on a PMT PID: a section may be up to 1024 bytes, and the unit also holds the pointer
+		// field, pointer filler and trailing stuffing
 		{Name: "pmt-section-near-1024-bytes", PSI: true, Early: true, Big: true, NeedsPAT: true, Make: func(p, t int) SUnit {
 			var d *astits.PMTData
 			for n := 60; ; n++ { // the largest model that still fits a section
@@ -464,7 +454,7 @@ func checkC02(c *mc.Ctx) {
 	})
 	_ = skipped
 	c.Ev.AddScenario(mc.Scenario{Name: "single-unit-packetisation", SpaceSize: total, Executed: done, Exhaustive: done == total,
-		Bound: "26 unit kinds (two of them beyond 1024 bytes on the PAT and a PMT PID, single deviations over {1,2,91,182,183} only) x pointer_field {0,1,7,50} x trailing stuffing {0,1,5,190} x {AF stuffing, 0xFF padding} x {flush by next unit, flush at EOF} x (greedy + every single chunk deviation c in 1..183 at every packet + pairs over {1,2,3,91,182,183})"})
+		Bound: "25 unit kinds (one of them beyond 1024 bytes on a PMT PID, single deviations over {1,2,91,182,183} only) x pointer_field {0,1,7,50} x trailing stuffing {0,1,5,190} x {AF stuffing, 0xFF padding} x {flush by next unit, flush at EOF} x (greedy + every single chunk deviation c in 1..183 at every packet + pairs over {1,2,3,91,182,183})"})
 	c02PMTBeforePAT(c)
 	c02MultiSectionPAT(c)
 	c02Continuous(c)
